@@ -113,6 +113,14 @@ def step (s : St) : List String → St × String
         (s, match r with | .handle .. => "ok " ++ o | _ => o)
       else (s, "bad-op")
     | none => (s, "bad-op")
+  | ["expect", ty, id] => match keyOf ty id with
+    -- `load_expect`: `load`, with every error turned into a panic
+    | some k => if isCompound k then
+        let (s, r) := runOp s (.load k)
+        let (s, o) := showRes s r
+        (s, match r with | .handle .. => "ok " ++ o | .err _ => "panic" | _ => o)
+      else (s, "bad-op")
+    | none => (s, "bad-op")
   | ["owned", ty, id] => match keyOf ty id with
     | some k => if isCompound k then
         let (s, r) := runOp s (.loadOwned k)
